@@ -15,6 +15,8 @@ Oracles:
 """
 import copy
 
+from hypothesis import strategies as st
+
 from .. import build as B
 from .. import design as D
 from .. import env, lib as L, ref as R, spec as S, strategies as G
@@ -37,6 +39,56 @@ def moved_to_combinator(block):
     return None
 
 
+@st.composite
+def skeleton_repeat(draw, c):
+    """stratified over the dimensions the property is about: preamble x number of repetitions x constraint kind x
+    placement x target factor - each cell is CONSTRUCTED, the rest is random"""
+    nA = draw(st.sampled_from([2, 2, 3]))
+    A = {"name": "A", "levels": [["a%d" % i, 1] for i in range(nA)]}
+    B = {"name": "B", "levels": [["b%d" % i, 1] for i in range(draw(st.sampled_from([2, 3])))]}
+    derived = []
+    preamble = draw(st.booleans())
+    crossing = ["A"]
+    if preamble:
+        derived.append({"name": "Y", "args": [draw(st.sampled_from(["A", "B"]))], "kind": draw(st.sampled_from(["transition", "transition", "window"])),
+                        "width": 2, "stride": 1, "start": None, "levels": [["y0", 1], ["y1", 1]], "else_last": draw(st.booleans()),
+                        "salt": draw(st.integers(0, 10 ** 6)), "overrides": {}})
+        crossing = draw(st.sampled_from([["Y"], ["Y"], ["A", "Y"]]))
+    if draw(st.booleans()):
+        derived.append({"name": "X", "args": ["A", "B"], "kind": "within", "width": 1, "stride": 1, "start": None,
+                        "levels": [["x0", 1], ["x1", 1]], "else_last": False, "salt": draw(st.integers(0, 10 ** 6)), "overrides": {}})
+    names = ["A", "B"] + [d["name"] for d in derived]
+    spec = {"factors": [A, B], "derived": derived}
+    leaf = {"type": "cross", "design": names, "crossing": crossing, "constraints": [], "rcc": True}
+    spec["block"] = leaf
+    T1 = G.estimate_T(spec) or 2
+    p1 = 1 if preamble else 0
+    S1 = max(1, T1 - p1)
+    reps = draw(st.sampled_from(["2", "3", "2+", "3+"]))
+    k = p1 + {"2": 2 * S1, "3": 3 * S1, "2+": 2 * S1 + 1, "3+": 3 * S1 + 1}[reps]
+    kind = draw(st.sampled_from(["pin", "pin", "atmost", "atmost", "atleast", "exactly_row", "exactly_k"]))
+    target = draw(st.sampled_from(names))
+    lv = [l[0] for l in S.levels_of(spec, target)]
+    con = {"kind": kind, "factor": target, "level": draw(st.sampled_from(lv))}
+    if kind == "pin":
+        con["index"] = draw(st.sampled_from([0, 1, -1, -2, T1 - 1, -T1]))
+    else:
+        con["k"] = draw(st.sampled_from([1, 1, 2, 2, 3]))
+    placement = draw(st.sampled_from(["member", "member", "combinator"]))
+    cs = [{"kind": "min", "k": k}]
+    if placement == "member":
+        leaf["constraints"].append(con)
+    else:
+        cs.append(con)
+    spec["block"] = {"type": "repeat", "block": leaf, "constraints": cs}
+    spec["skeleton"] = {"preamble": preamble, "repetitions": reps, "constraint": kind, "placement": placement}
+    return spec
+
+
+def c26_cases(c):
+    return st.one_of(skeleton_repeat(c), G.design_spec(c))
+
+
 def judge(ctx):
     spec = ctx.spec
     t = spec["block"]["type"]
@@ -56,6 +108,9 @@ def judge(ctx):
     reps = 0
     for c, windows in r.C["checks"]:
         reps = max(reps, len(windows))
+    sk = spec.get("skeleton")
+    if sk:
+        ctx.label("skeleton", "sk-preamble=%s" % sk["preamble"], "sk-reps=%s" % sk["repetitions"], "sk-%s-%s" % (sk["placement"], sk["constraint"]))
     ctx.label("combinator:" + t, "member-constraints=%d" % len(member_cons), "combinator-constraints=%d" % len(comb_cons),
               "repetitions=%s" % (reps if reps < 4 else "4+"))
     models, complete = ctx.sat_all(cap=ctx.lim("max_models"))
@@ -127,8 +182,8 @@ P = D.DesignProperty(
     rule=("case = generated Repeat / Merge / Nest over CrossBlocks with constraints on member blocks and/or on the combinator; non-trivial = at "
           "least one sequence judged, a non-Exclude constraint present and at least 2 repetition windows; class placement-distinguishes = the "
           "reference finds the member-scoped and combinator-scoped readings of an AtMostKInARow different; distinct = distinct spec JSON"),
-    cfg_quick=CFG, n_quick=150, n_thorough=3000, case_limit=(20, 120),
-    limits={"max_T": {"quick": 8, "thorough": 12}, "max_models": {"quick": 800, "thorough": 8000}, "max_seqs": {"quick": 800, "thorough": 8000},
+    cfg_quick=CFG, n_quick=150, n_thorough=3000, case_limit=(20, 120), strategy=c26_cases,
+    limits={"max_T": {"quick": 9, "thorough": 13}, "max_models": {"quick": 800, "thorough": 8000}, "max_seqs": {"quick": 800, "thorough": 8000},
             "node_cap": {"quick": 200000, "thorough": 2000000}},
     assumptions=["vp/ref.py compile_merge/compile_nest implement the documented scoping (self-tested on Repeat leftovers and two Nest designs)",
                  "count-type constraints on a truncated final repetition, constraints on sustained factors and Excludes acting across members are ambiguous and excluded"])
